@@ -15,7 +15,7 @@ PROPS = {
         "required_theorems": ["varint_roundtrip", "uvarint_roundtrip", "varintConv_roundtrip", "object_roundtrip",
                               "object_roundtrip_exact", "negative_zero_roundtrip", "bytecode_roundtrip",
                               "positions_survive", "norm_only_representation", "normCF_spec", "norm_idem",
-                              "decode_twice", "tags_distinct", "field_numbers", "C04_partial"],
+                              "decode_twice", "fix_rebinds", "tags_distinct", "field_numbers", "C04_partial"],
         "trusted": [
             "hand model Model/Enc.lean (varints, every tagged codec, CompiledFunction field elision, SourceFile(Set), header and field loop, fixObjects) tied by stream `enc`: implementation-encoded constants and bytecodes decoded by the model (structural comparison) and re-encoded by the model byte-identically",
             "gob (encoding/gob fallback for object types without a binary marshaler) is a parameter assumed to round-trip (Encodable C (.gob ..))",
@@ -25,7 +25,7 @@ PROPS = {
             "behavioural half: C04_full is stated over an abstract `run`; C04_partial proves it from the hypothesis that `run` does not observe what norm/fixObjects change (VM model not yet available); the `enc` stream checks original vs decoded vs re-decoded runs (value / error name+message / stack trace) on the implementation",
             "nil and empty slices/maps are identified in the model (except SyncMap.Value, Instructions, SourceMap, Constants, where the encoder itself distinguishes them)",
             "lengths fit Go's int (< 2^63); the decoder model has enough fuel (need o <= fuel)",
-            "fix_rebinds (fixObjects re-binds every module item to the live object) is checked by the `enc` stream, not proved",
+            "ugo.AttrModuleName (\"__module_name__\") is a hand-copied constant of the model (tied by the module cases of stream `enc`)",
         ],
         "partial": [
             {"theorem": "C04_partial", "full": "C04_full",
